@@ -8,7 +8,9 @@
 //	           M  proxy CONNECTs through a second real martian proxy (SetDownstreamProxy)
 //	           F  proxy CONNECTs through a scripted downstream proxy that answers
 //	              "HTTP/1.1 200 OK" and the first <banner> target bytes in ONE write
-//	    early  number of client payload bytes written in the SAME write as the CONNECT head
+//	    early  number of client payload bytes written in the SAME write as the CONNECT head;
+//	           e<n>h: the client also half-closes right then, before the CONNECT response
+//	           (= an implicit first phase "ch/t", which gets its own checkpoint)
 //	    banner number of target bytes written before anything is read (D, M: right after
 //	           accept; F: in the same write as the downstream proxy's 200 head)
 //	    phase  c<writes>[h|f]/t<writes>[h|f]   both sides run concurrently, then a checkpoint
@@ -78,6 +80,7 @@ type phase struct{ c, t side }
 type tcase struct {
 	via           string
 	early, banner int
+	earlyShut     bool
 	phases        []phase
 }
 
@@ -129,6 +132,10 @@ func parseTun(in []string) (*tcase, error) {
 	var err error
 	if len(in[2]) < 2 || in[2][0] != 'e' || len(in[3]) < 2 || in[3][0] != 'b' {
 		return nil, fmt.Errorf("e/b")
+	}
+	if strings.HasSuffix(in[2], "h") {
+		tc.earlyShut = true
+		in = append([]string{in[0], in[1], strings.TrimSuffix(in[2], "h"), in[3], "ch/t"}, in[4:]...)
 	}
 	if tc.early, err = strconv.Atoi(in[2][1:]); err != nil || tc.early < 0 || tc.early > 1<<20 {
 		return nil, fmt.Errorf("early")
@@ -429,6 +436,9 @@ func runTun(tc *tcase, grace, headWait time.Duration) (out []string, timingOnly 
 	first := append([]byte(head), cdata[:tc.early]...)
 	if _, err := cconn.Write(first); err != nil {
 		return []string{"writeerr"}, false
+	}
+	if tc.earlyShut {
+		cconn.(halfCloser).CloseWrite()
 	}
 
 	var tconn net.Conn
